@@ -78,7 +78,9 @@ def gate_check(ctx):
 
 F = [gen.Feats(cond=True, contg=True, nullable_star=True, refs_closed=False), gen.Feats(look=True), gen.Feats(cond=True)]
 LB = ["(?<=%s)c", "(?<!%s)c", "x(?<=%s)", "(?<=a%s)", "(?<=%s|b)"]
-LBF = ["ab|c", "bc|a", "a|bc", "abc|de|f", "a(?:cd|b)", "é", "éa|b", "a{2}", "a{1,2}", "(a)|(b)", "\\b", "(?:a|é)b", ".", "..", "a*", "(?(1)a|b)", "(?:ab|a)", "[ab]é", "(?=a)", "a|é"]
+LBF = ["ab|c", "bc|a", "a|bc", "abc|de|f", "a(?:cd|b)", "é", "éa|b", "a{2}", "a{1,2}", "(a)|(b)", "\\b", "(?:a|é)b", ".", "..", "a*", "(?(1)a|b)", "(?:ab|a)", "[ab]é", "(?=a)", "a|é",
+       # conditionals whose CONDITION consumes a variable number of characters
+       "(?(a+)b|cc)", "(?(a|bb)c|dd)", "(?(a?)b|c)", "(?(a)b|c)", "(?(a)b|cc)", "(?(a*)bb|cc)", "(?((a)|bc)a|b)", "(?(ab?)c)"]
 CFG = {
     "prop": "C13", "theorems": THEOREMS, "feats": F, "n_quick": 350, "n_thorough": 8000,
     "tiers": ("t2", "sem"), "extras": [lens_check, gate_check], "sem_is_property": False,
